@@ -4,6 +4,8 @@ from .common import S, co, calls_norm, is_call_term, var_name, render_path, stor
 
 from .common import ok_return_blocks as _okret
 
+from engine.anl.casts import const_value as const_value_
+
 EXPLANATION = (
     "Static decision of the reload protocol: (R18.1) in CertReloader::reload no path from the first write to any of the four published "
     "fields {tls_acceptor, cert_info, reload_count, last_reload} reaches an error return, and all four writes lie on every path from the "
@@ -278,7 +280,58 @@ def r7_strict_parsing_and_fixed_paths(ctx):
                "start-up — it reports success and bumps the counters while the old certificate stays in service" % (writes[0][0].split("::{closure")[0], writes[0][1]))
 
 
+def r9_expired_means_negative(ctx):
+    """`is_expired()` is `days_until_expiry < 0`, and that is what the reload gate asks: the value computed for a certificate whose
+    notAfter lies in the past must be strictly negative — from the first second, not from the first whole day — and the value
+    computed for one that is still valid must not be"""
+    from engine.anl.casts import range_of
+    body = ctx.body("R18.9", "util::cert_analyzer::CertificateInfo::from_x509")
+    ie = ctx.body("R18.9", "util::cert_analyzer::CertificateInfo::is_expired")
+    if body is None or ie is None:
+        return
+    cfg, conds, o = ctx.cfg(body), ctx.conds(body), ctx.origins(body)
+    oi = ctx.origins(ie)
+    rets = [oi.of_operand(rv["op"]) if rv["r"] == "use" else oi._rvalue(rv, (), bi, 0, frozenset()) for kind, bi, si, rv in ie.defs().get(0, []) if kind == "assign"]
+    lt0 = any(isinstance(t, tuple) and t and t[0] == "binop" and t[1] == "Lt" and "days_until_expiry" in fmt(t[2]) and const_value_(t[3]) == 0 for t in rets)
+    ctx.ob("R18.9", "is_expired:is-days<0", lt0, "", "is_expired() = days_until_expiry < 0" if lt0 else "is_expired() is not `days_until_expiry < 0` (%s)" % [fmt(t)[:60] for t in rets])
+    err_e, ok_e = [], []
+    for c in conds.all():
+        if c.kind == "variant" and is_call_term(c.term, "SystemTime::duration_since") and "Err" in sum(c.by_succ.values(), []):
+            err_e += c.edges_for("Err")
+            ok_e += c.edges_for("Ok")
+    # the struct field
+    val = None
+    for bi in sorted(body.reachable()):
+        for st in body.blocks[bi]["stmts"]:
+            if st["s"] == "assign" and st["rv"]["r"] == "aggregate" and "CertificateInfo" in str(st["rv"]["kind"].get("adt", "")):
+                fields = st["rv"]["kind"].get("fields") or []
+                for i, f in enumerate(fields):
+                    if f == "days_until_expiry" and i < len(st["rv"]["ops"]):
+                        val = o.of_operand(st["rv"]["ops"][i])
+    if val is None or not err_e:
+        ctx.missing("R18.9", "days_until_expiry field of the CertificateInfo literal / match on not_after.duration_since(now)")
+        return
+    alts = o.phi_sites.get(val, []) if isinstance(val, tuple) and val and val[0] == "phi" else []
+    if not alts:
+        ctx.missing("R18.9", "the two alternatives (valid / expired) of days_until_expiry")
+        return
+    for alt, bi in alts:
+        used = []
+        lo, hi = range_of(body, cfg, conds, o, alt, bi, used)
+        if cfg.edges_dominate(err_e, bi):
+            ok = hi is not None and hi <= -1
+            ctx.ob("R18.9", "from_x509:expired-certificate-gets-a-negative-value", ok, "src/util/cert_analyzer.rs:%s" % body.blocks[bi]["tspan"]["line"],
+                   "in the notAfter-is-past branch the value is at most %s" % hi if ok else
+                   "in the branch where notAfter lies in the past, days_until_expiry is `%s` with range [%s, %s], not strictly negative: is_expired() is false for such a certificate, so the expiry gate of reload() "
+                   "installs an expired certificate (one that expired within the last day, or any expired one if the sign is lost) and counts the reload as a success" % (fmt(alt)[:70], lo, hi))
+        elif cfg.edges_dominate(ok_e, bi):
+            ok = lo is not None and lo >= 0
+            ctx.ob("R18.9", "from_x509:valid-certificate-gets-a-non-negative-value", ok, "src/util/cert_analyzer.rs:%s" % body.blocks[bi]["tspan"]["line"],
+                   "in the still-valid branch the value is at least %s" % lo if ok else "a certificate that is still valid can get a negative days_until_expiry (`%s`): it would be refused as expired" % fmt(alt)[:70])
+
+
 def run(ctx):
+    r9_expired_means_negative(ctx)
     from . import C20 as _C20
     _C20.r14_gauges_released_on_every_exit(ctx)     # a reload that fails leaves nothing behind that makes later reloads no-ops
     from . import effects
